@@ -114,7 +114,7 @@ def meas_items(obs, which):
 
 
 PROPS["C09"] = {
-    "streams": [{"name": "inst"}],
+    "streams": [{"name": "inst"}, {"name": "swrap"}],
     "model_is_spec": ["inst"],
     "spec_theorem": "every measurement of the model is the Spec/Formulas.lean value of one exchange (C09.handleSync_exact … handleDelayResp_exact)",
     "nontrivial_op": "",
@@ -165,7 +165,7 @@ PROPS["C08"] = {
 }
 
 PROPS["C10"] = {
-    "streams": [{"name": "master"}, {"name": "inst"}],
+    "streams": [{"name": "master"}, {"name": "inst"}, {"name": "swrap"}],
     "model_is_spec": ["master", "inst"],
     "spec_theorem": "the model's Follow_Up / Delay_Resp / Pdelay_Resp(_Follow_Up) are exact (C10.followUp_exact … pdelayRespFu_exact), every model frame is well-formed for its port and numbered consecutively (C10.portHandler_frames, seq_numbers_consecutive)",
     "rule": "master: runs of 66 000 Sync (thorough: also Announce and Pdelay_Req) emissions from one port through the sequence number "
@@ -597,5 +597,5 @@ def replay_body(pid, stream, ops, idx):
     return ops[idx] + "\n"
 
 
-STATEFUL = {"inst", "bmca", "fml", "c07", "master", "view", "tlv", "timed", "filt", "loop", "exporter", "net", "forwarder"}
+STATEFUL = {"inst", "bmca", "fml", "c07", "master", "swrap", "view", "tlv", "timed", "filt", "loop", "exporter", "net", "forwarder"}
 SCENARIO_START = {"filt": ("FLT knew", "FLT bnew"), "loop": ("FLT knew", "FLT bnew"), "exporter": ("EXP new",), "net": ("N0 INIT",), "forwarder": ("FWD new",)}
